@@ -709,9 +709,26 @@ pub fn lit_body(s: &[u8], raws: &[bool], t: &mut Tape) -> Vec<u8> {
     join_rev(pieces)
 }
 
+/// do the parentheses marked raw balance (`n` = open ones so far)?
+pub fn raw_ok_from(mut n: u64, s: &[u8], raws: &[bool]) -> bool {
+    for (i, &b) in s.iter().enumerate() {
+        let raw = raws.get(i).copied().unwrap_or(false);
+        if raw && b == 40 {
+            n += 1;
+        } else if raw && b == 41 {
+            if n == 0 {
+                return false;
+            }
+            n -= 1;
+        }
+    }
+    n == 0
+}
+
 pub fn lit_str_tok(s: &[u8], t: &mut Tape) -> Vec<u8> {
     let rp = t.draw(2);
-    let raws = if rp == 1 { match_parens(s) } else { vec![false; s.len()] };
+    let cand = if rp == 1 { match_parens(s) } else { vec![] };
+    let raws = if raw_ok_from(0, s, &cand) { cand } else { vec![] };
     let mut out = vec![40];
     out.extend(lit_body(s, &raws, t));
     out
